@@ -157,6 +157,18 @@ def _subterms(o):
                     yield from _subterms(y)
 
 
+def hsl_core_is_css(project, chk, rule="N5"):
+    """hsl_to_rgb computes the CSS HSL -> RGB algorithm on the parsed (h, s, l), each channel int(round(x * 255))."""
+    fi = project.func(f"{CONV}.hsl_to_rgb")
+    try:
+        ex, env, ret = extract_function(project, fi)
+        memo = {id(env[v]): (env[v], ("var", v)) for v in ("h", "s", "l")}
+        core = final_value(transform(ret, lambda n: n, memo))
+    except (Unsupported, KeyError) as e:
+        raise AnalysisError(f"ANALYSIS-INCONCLUSIVE {fi.short}: {e}")
+    audit(project, chk, rule, f"{CONV}.hsl_to_rgb", REF, "hsl_core", Policy(), "the CSS HSL -> RGB algorithm", code_expr=core)
+
+
 def prefix_strings(org, node, arg):
     """The constant string(s) a startswith/endswith test compares with: a literal, a tuple of literals, or the
     k-th column of a constant table the enclosing loop runs over."""
@@ -484,14 +496,7 @@ def run(project, chk):
 
     # ---------------------------------------------------------------- N5 hsl
     hsl_fields_read_as_css(project, chk, "N5")
-    fi = project.func(f"{CONV}.hsl_to_rgb")
-    try:
-        ex, env, ret = extract_function(project, fi)
-        memo = {id(env[v]): (env[v], ("var", v)) for v in ("h", "s", "l")}
-        core = final_value(transform(ret, lambda n: n, memo))
-    except (Unsupported, KeyError) as e:
-        raise AnalysisError(f"ANALYSIS-INCONCLUSIVE {fi.short}: {e}")
-    audit(project, chk, "N5", f"{CONV}.hsl_to_rgb", REF, "hsl_core", Policy(), "the CSS HSL -> RGB algorithm", code_expr=core)
+    hsl_core_is_css(project, chk, "N5")
     # every way a hue enters hsl_to_rgb / hsla_to_rgb is wrapped
     for q in (f"{CONV}.hsl_to_rgb", f"{CONV}.hsla_to_rgb"):
         fi = project.func(q)
